@@ -43,6 +43,14 @@ def FLOORS(tier):
             f["method:%s:%s" % (t, fo)] = 15 if q else 500
     return f
 
+_FLOORS_BEFORE_ROUND9 = FLOORS
+
+
+def FLOORS(tier):      # noqa: F811 -- floors of the input classes added in round 9 (a quarter of what seed 0 observes in the quick tier)
+    f = _FLOORS_BEFORE_ROUND9(tier)
+    f.update({'tied-top-degree-term-cancelled': 7})
+    return f
+
 
 def basis(p, target_kind):
     if p.kind == target_kind:
